@@ -180,6 +180,9 @@ pub struct TV {
     pub val: u64,
     pub serial: u64,
     pub canary: u64,
+    /// flavour `bigval`: a value larger than any size threshold a maintainer would plausibly pick
+    #[cfg(feature = "bigval")]
+    pub pad: [u64; 20],
 }
 impl TV {
     pub fn new(val: u64) -> TV {
@@ -188,11 +191,24 @@ impl TV {
             val,
             serial,
             canary: serial ^ CANARY_MAGIC,
+            #[cfg(feature = "bigval")]
+            pad: [serial; 20],
         }
+    }
+    /// the canary as the ledger sees it: under `bigval` a value whose tail was not carried along
+    /// (a partial bitwise copy) reads as garbage
+    #[inline]
+    fn canary_seen(&self) -> u64 {
+        #[cfg(feature = "bigval")]
+        {
+            return self.canary ^ (self.pad[19] ^ self.serial) ^ (self.pad[0] ^ self.serial).rotate_left(17);
+        }
+        #[allow(unreachable_code)]
+        self.canary
     }
     /// read through a reference handed out by the library
     pub fn read(&self) -> u64 {
-        if world::check_use(self.serial, self.canary, "value (read by caller)") {
+        if world::check_use(self.serial, self.canary_seen(), "value (read by caller)") {
             self.val
         } else {
             u64::MAX
@@ -202,14 +218,14 @@ impl TV {
 impl Clone for TV {
     fn clone(&self) -> Self {
         world::user_call(CallKind::CloneV);
-        world::check_use(self.serial, self.canary, "value (in Clone)");
+        world::check_use(self.serial, self.canary_seen(), "value (in Clone)");
         TV::new(self.val)
     }
 }
 impl Drop for TV {
     fn drop(&mut self) {
         world::user_call(CallKind::DropV);
-        world::drop_obj(self.serial, self.canary, "value");
+        world::drop_obj(self.serial, self.canary_seen(), "value");
         self.canary = CANARY_DEAD;
     }
 }
